@@ -1,7 +1,6 @@
 from typing import Union
 
 from dliswriter.logical_record.core.iflr import IFLR
-from dliswriter.logical_record.core.logical_record.logical_record_bytes import LogicalRecordBytes
 from dliswriter.utils.internal.internal_enums import IFLRType
 from dliswriter.logical_record.eflr_types.no_format import NoFormatItem
 
@@ -27,14 +26,8 @@ class NoFormatFrameData(IFLR):
         else:
             data_encoded = self.data.encode('ascii')
 
-        bts = self.no_format_object.obname + data_encoded
-
-        # add padding if the length of the bts is less than minimum (12)
-        padding_len = 12 - len(bts)
-        if padding_len:
-            bts += padding_len * LogicalRecordBytes.padding
-
-        return bts
+        # a body shorter than the segment minimum is padded (and flagged as padded) when the segment is made
+        return self.no_format_object.obname + data_encoded
 
     @property
     def n_items(self) -> int:
